@@ -157,7 +157,7 @@ theorem step_total (cfg : Cfg) (hg : cfg.good = true) (ar : Arith) (kind : Kind)
 /-! ### counterexamples: one closed history per bad fact, valid whatever the other facts are -/
 
 /-- arithmetic for the witnesses (none of them uses floats) -/
-def ar0 : Arith := ⟨fun _ _ _ => 0, fun _ _ _ => false, fun _ _ _ => false⟩
+def ar0 : Arith := { fadd := fun _ _ _ => 0, flt := fun _ _ _ => false, feq := fun _ _ _ => false }
 
 def k5 : Item := { key := "k", val := .int .i64 5 }
 def k5u : Item := { key := "k", val := .int .i64 5, cb := "u1" }
@@ -331,6 +331,9 @@ structure Facts where
   countMissingOk : Tri
   setErrSingle : Tri
   saveReleasesImmediate : Tri
+  /-- replies show every non-zero ExpiredAt (environment of the run, see `Arith.expNe0`; not part of
+      the refinement statement, which holds for either value) -/
+  wireExpNe0 : Tri
   deriving DecidableEq, Repr
 
 def hasUnknown (f : Facts) : Bool :=
@@ -338,7 +341,7 @@ def hasUnknown (f : Facts) : Bool :=
   f.voidClears == .unknown || f.pushChecksType == .unknown || f.setSliceReplaces == .unknown ||
   f.u32delReleases == .unknown || f.u32delChecksType == .unknown || f.incFailClean == .unknown ||
   f.noEmptyLive == .unknown || f.arekAllFalse == .unknown || f.countMissingOk == .unknown ||
-  f.setErrSingle == .unknown || f.saveReleasesImmediate == .unknown
+  f.setErrSingle == .unknown || f.saveReleasesImmediate == .unknown || f.wireExpNe0 == .unknown
 
 /-- the storage encoding does not occur in any request handler (it matters for C05 only) -/
 def cfgOf (f : Facts) : Cfg :=
